@@ -334,7 +334,7 @@ def gen_struct(draw, g, min1=False):
 
 def gen_group(draw, g):
     """one to three members; may register integer fields usable by later members"""
-    opts = ["plain", "plain", "plain", "anon", "lenpair", "rebuildpair", "condpair", "computed", "default", "checked", "nested"]
+    opts = ["plain", "plain", "plain", "anon", "lenpair", "rebuildpair", "condpair", "computed", "default", "checked", "nested", "derivedpair"]
     if g.has("stopif"):
         opts.append("stopif")
     if g.params and g.has("switch") and not g.ctxfree:
@@ -374,6 +374,16 @@ def gen_group(draw, g):
         g.ints.append((0, n, "int"))
         d = g.fresh("d")
         return [[n, lf], [d, gen_dependent(draw, g, gref(draw, g, 0, n, draw(st.sampled_from(["attr", "item"]))))]]
+    if o == "derivedpair":
+        # a member that build derives by itself (Default/Const/Computed given None) and a later member sized by it: the parent
+        # must hand the BUILT value on, not the supplied None
+        n, d = g.fresh("n"), g.fresh("d")
+        k = draw(st.integers(0, 4))
+        form = draw(st.sampled_from([f for f in ("default", "const", "computed") if g.has(f)] or ["default"]))
+        lf = gen_int(draw, unsigned=True, maxbytes=2)
+        derived = {"default": ["default", lf, k], "const": ["const", k, lf], "computed": ["computed", ["const", k]]}[form]
+        g.ints.append((0, n, "int"))
+        return [[n, derived], [d, gen_dependent(draw, g, gref(draw, g, 0, n, draw(st.sampled_from(["attr", "item"]))))]]
     if o == "rebuildpair" and g.has("rebuild"):
         n, d = g.fresh("n"), g.fresh("d")
         lf = gen_lenfield(draw)
@@ -458,11 +468,20 @@ def gen_group(draw, g):
         if kind == "fseq" and g.has("fseq"):
             named = [nm for nm, s in sub[1] if nm and not buildnone(s) and s[0] not in ("stopif",)]
             ok = all(buildnone(s) or nm in named[:1] for nm, s in sub[1]) and not any(s[0] == "stopif" for _, s in sub[1])
+            # a dropped member that steers the layout must be reconstructible from what is kept: a Default accepts any parsed
+            # value but is rebuilt as its constant, so such a format could not re-encode everything it parses (ill-formed)
+            ok = ok and not any(_unwrap_docs(s)[0] == "default" and nm and _referenced(sub[1], nm) for nm, s in sub[1])
             if named and ok:
                 return [[name, ["fseq", named[0], sub[1]]]]
         return [[name, sub]]
     name = g.fresh()
     return [[name, gen_spec(draw, g.child())]]
+
+
+def _unwrap_docs(s):
+    while s[0] in ("docs", "lazybound"):
+        s = s[1]
+    return s
 
 
 def _referenced(members, name):
@@ -1005,6 +1024,18 @@ def _gen_members(draw, members, sc, vp):
             pool += [c + 1 for c in pool if lo <= c + 1 <= hi]
             v = draw(st.sampled_from(sorted(set(pool + [x for x in range(0, 6) if lo <= x <= hi]))))
             s2[name] = v
+        elif used and sub[0] == "default" and sub[1][0] == "int":
+            v = draw(st.sampled_from([None, None, 0, 1, 2, 3]))
+            s2[name] = sub[2] if v is None else v
+        elif used and sub[0] == "const" and sub[2] is not None:
+            v = draw(st.sampled_from([None, None, sub[1]]))
+            s2[name] = sub[1]
+        elif used and sub[0] == "computed":
+            v = None
+            try:
+                s2[name] = X.evaluate(sub[1], s2)
+            except Exception:
+                s2[name] = Free()
         elif used and sub[0] == "varint":
             v = draw(st.integers(0, 5))
             s2[name] = v
